@@ -11,6 +11,7 @@ import (
 	"os"
 	"reflect"
 	"runtime"
+	"strconv"
 	"strings"
 	"sync"
 	"time"
@@ -200,6 +201,14 @@ func Run(v []Ent, timeout time.Duration, f func()) (outcome string, detail strin
 	vector, pos, obs = v, 0, nil
 	clkOff, clkManual = 0, false
 	mu.Unlock()
+	var maxAlloc uint64
+	if v, err := strconv.ParseUint(os.Getenv("VERIF_MAX_ALLOC"), 10, 64); err == nil {
+		maxAlloc = v
+	}
+	var ms0 runtime.MemStats
+	if maxAlloc > 0 {
+		runtime.ReadMemStats(&ms0)
+	}
 	done := make(chan [2]string, 1)
 	go func() {
 		defer func() {
@@ -225,6 +234,13 @@ func Run(v []Ent, timeout time.Duration, f func()) (outcome string, detail strin
 		mu.Lock()
 		o := append([]string(nil), obs...)
 		mu.Unlock()
+		if maxAlloc > 0 && r[0] == "ok" {
+			var ms1 runtime.MemStats
+			runtime.ReadMemStats(&ms1)
+			if d := ms1.TotalAlloc - ms0.TotalAlloc; d > maxAlloc {
+				return "alloc", fmt.Sprintf("harness allocated %d bytes, bound %d", d, maxAlloc), o
+			}
+		}
 		return r[0], r[1], o
 	case <-time.After(timeout):
 		return "hang", "no result after " + timeout.String(), nil
